@@ -48,6 +48,8 @@ def run(v, O):
             continue
         if i == 0 and v.first_none:
             lit = 'none'
+        if i > 0 and i == v.mid_none:
+            lit = 'none'
         lines.append(f'NAME{" " + v.dtype if typed or i == 0 else ""} = {lit}' + (f' {u}' if u else ''))
         if i == 0 and v.props:
             lines += ['  !description "a node"', '  !tags ["x"]']
@@ -61,13 +63,14 @@ def run(v, O):
     last = len(vals) - 1
     ul = v.units[last] or first_unit
     want = vals[last] * (factor(ul) / factor(first_unit)) if first_unit else vals[last]
+    if last == v.mid_none: want = None
     got = data[path]
     if first_unit:
         out.append(('result is (value, definition unit)', O.same(isinstance(got, tuple) and got[1] == first_unit, True)))
         if isinstance(got, tuple):
             out.append(('value is the last assignment in the definition unit', O.eq(got[0], want, 1e-9)))
     else:
-        out.append(('value is the last assignment', O.eq(got, want, 1e-9)))
+        out.append(('value is the last assignment', O.eq(got, want, 1e-9) if want is not None else O.same(got, None)))
     out.append(('data type of the definition', O.same(type(types[path]).__name__, {'float': 'FloatType', 'int': 'IntegerType'}[v.dtype])))
     out.append(('unit of the definition', O.same(types[path].unit, first_unit)))
     return out
@@ -138,7 +141,8 @@ def scenarios(tier, seed):
                 first_none = (n % 7 == 0) and not declare
                 inp = {f'x{i}': ('real' if dtype == 'float' else 'int') for i in range(len(units))}
                 S.append(Scenario(f'numeric/{dtype}/{u0}/{"-".join(seq)}/{n % 4}/{"decl" if declare else "none" if first_none else "def"}', NUM_SRC, inp,
-                                  consts={'units': units, 'typed': typed, 'dtype': dtype, 'declare': declare, 'first_none': first_none, 'placement': n % 4, 'props': n % 3 == 0},
+                                  consts={'units': units, 'typed': typed, 'dtype': dtype, 'declare': declare, 'first_none': first_none, 'placement': n % 4, 'props': n % 3 == 0,
+                                          'mid_none': (1 + n % (len(units) - 1)) if (len(units) > 1 and n % 4 == 1) else -1},
                                   preamble=PRE, what=f'{dtype} node defined in {u0}, then assigned in {units[1:]}', samples=2))
     for dtype, seqs in (('bool', [['B', 'B'], ['B', 'B', 'B'], ['none', 'B'], ['B', 'none']]),
                         ('str', [['x', ''], ['', 'y'], ['x', 'two words', ''], ['none', 'z'], ['x', 'none'], ['a', 'b', 'c'], ["it's", 'q']])):
@@ -150,7 +154,9 @@ def scenarios(tier, seed):
                 ('unit of another dimension', 'a float = {x} m\na = {y} s'), ('unit of another dimension (typed)', 'a float = {x} J\na float = {y} kg'),
                 ('constant node modified', 'a float = {x} m\n  !constant\na = {y} m'), ('constant bool modified', 'b bool = true\n  !constant\nb = false'),
                 ('constant node modified two levels deep', 'g\n  a int = {k}\n    !constant\ng.a = {k}'),
-                ('declared node left without value', 'a float m'), ('declared node among others left without value', 'b int = {k}\na float m\nc str = "x"'),
+                ('declared node left without value', 'a float m'), ('declared bool left without value', 'g bool'), ('declared str left without value', 's str'),
+                ('declared int left without value', 'k int'), ('declared bool under a group left without value', 'grp\n  flag bool\n  n int = {k}'),
+                ('declared bool array left without value', 'flags bool[2]'), ('declared node among others left without value', 'b int = {k}\na float m\nc str = "x"'),
                 ('nested declaration left without value', 'g\n  a float m\nb int = {k}'),
                 ('modification of an undefined node', 'a = {x} m'), ('unit on a boolean', 'b bool = true m'), ('bool assigned a number', 'b bool = {k}')]
     accepted = [('declaration then value', 'a float m\na = {x}'), ('declaration then value in another prefix', 'a float m\na = {x} cm'),
@@ -158,7 +164,7 @@ def scenarios(tier, seed):
     S.append(Scenario('reject', REJECT_SRC, {'x': 'real', 'y': 'real', 'k': 'int'}, consts={'cases': rejected, 'accepted': accepted}, preamble=PRE,
                       what='inputs that must make parsing fail / succeed', samples=2))
     S.append(Scenario('canary/value', NUM_SRC.replace('vals[last] * (factor(ul) / factor(first_unit))', 'vals[0] * (factor(ul) / factor(first_unit))'), {'x0': 'real', 'x1': 'real'},
-                      consts={'units': ['m', 'cm'], 'typed': [True, False], 'dtype': 'float', 'declare': False, 'first_none': False, 'placement': 0, 'props': False}, preamble=PRE, canary=True))
+                      consts={'units': ['m', 'cm'], 'typed': [True, False], 'dtype': 'float', 'declare': False, 'first_none': False, 'placement': 0, 'props': False, 'mid_none': -1}, preamble=PRE, canary=True))
     return S
 
 
